@@ -82,6 +82,12 @@ CHECKS = {
     text="Search, not proof: 1.5k/100k pairs per tier over timeline-capable templates, fixture and synthetic streams, deltas from 1 ms to 3 days in classes (< segment, < loop, < day, >= day), half of them with patches.",
     note=SHIMS + ". One open known finding (C09-K1: first timeline entry can step back while the depth is still growing).",
     design_ref="DESIGN.md section 4, C09"),
+ "C12": dict(
+    engine="hypothesis",
+    technique="generated multi-period definitions written into the database; manifest read by the independent MPD reader (Period tiling in exact rationals); every admitted $Number$ and the one past the end fetched and compared (payload identity, decode times) with an independent scan of the source",
+    text="Search, not proof: 0.4k/15k definitions per tier (1-4 periods over fixture and synthetic streams, start/duration on and off segment boundaries, periods longer than the source, track subsets), vod and live, about 35 fetches per case.",
+    note=SHIMS + ". Own application instance per process; generated definitions are deleted after each case.",
+    design_ref="DESIGN.md section 4, C12"),
 }
 
 _PENDING = "check under construction in this build round; not yet registered (see DESIGN.md section 9)"
